@@ -5,7 +5,7 @@ import re, json, os
 DIRECTIVES = {
     'unit', 'serves', 'module', 'features', 'prelude', 'specs', 'flags', 'assumptions', 'item',
     'pre_attrs', 'requires', 'ensures', 'decreases', 'keep_fields', 'derives', 'loop', 'closure',
-    'params', 'cret', 'crequires', 'censures', 'adapter', 'bind', 'insert', 'wrap', 'carries', 'adapt', 'eta', 'omit', 'brk_type', 'assumed_begin', 'assumed_end', 'sentinel_specs', 'nosentinel', 'note', 'carve',
+    'params', 'cret', 'crequires', 'censures', 'adapter', 'bind', 'insert', 'wrap', 'carries', 'adapt', 'eta', 'omit', 'drop', 'brk_type', 'assumed_begin', 'assumed_end', 'sentinel_specs', 'nosentinel', 'note', 'carve',
 }
 
 _dir_re = re.compile(r'^\s*@([a-z_]+)\b(.*)$')
@@ -135,6 +135,10 @@ def parse(path):
         elif d == 'adapt':
             a = arg.split()
             item.setdefault('adapts', []).append({'chain': a[0], 'wrapper': a[1], 'recv': a[2] if len(a) > 2 and a[2] != 'soft' else '', 'soft': 'soft' in a[2:]})
+        elif d == 'drop':
+            # @drop followed by a line holding the statement prefix in backquotes
+            m = re.search(r'`([^`]*)`', arg + ' ' + text)
+            item.setdefault('drop_stmts', []).append(m.group(1))
         elif d == 'eta':
             # @eta Enum::Variant | PayloadType | ResultType
             a = [x.strip() for x in arg.split('|')]
@@ -284,6 +288,8 @@ def job(u, sentinel=False, soft_inserts=False, drop_inserts=None, repo=None):
             j['adapts'] = it['adapts']
         if it.get('etas'):
             j['etas'] = it['etas']
+        if it.get('drop_stmts'):
+            j['drop_stmts'] = it['drop_stmts']
         nested = [o['path'].split('::')[-1] for o in u.items if o['path'].startswith(it['path'] + '::')]
         if nested:
             j['drop_nested'] = nested
